@@ -1,5 +1,9 @@
 //! Property-based verification harness for ntex-mqtt (see /verif/DESIGN.md).
 #![allow(clippy::all)]
+pub mod conv;
+pub mod decoding;
+pub mod strat;
+pub mod libio;
 pub mod props;
 pub mod runner;
 pub mod spec;
